@@ -139,10 +139,14 @@ def _fl(x):
 
 
 class Fiber(FiberLike):
-    def __init__(self, coords=None, payloads=None, below=0):
+    shape = None   # optional tuple of extents for this rank and the ranks below (from Tensor(shape=...))
+
+    def __init__(self, coords=None, payloads=None, below=0, shape=None):
         self.coords = list(coords or [])
         self.payloads = list(payloads or [])
         self.below = below
+        if shape is not None:
+            self.shape = tuple(shape)
 
     def items(self):
         # fibertree iterates over non-default elements only (iterOccupancy): an element created by '<<' /
@@ -159,7 +163,11 @@ class Fiber(FiberLike):
         i = bisect.bisect_left(self.coords, c)
         if i < len(self.coords) and self.coords[i] == c:
             return self.payloads[i]
+        if self.shape is not None and isinstance(c, int) and not (0 <= c < self.shape[0]):
+            raise ModelError("coordinate %r inserted into a fiber of shape %r" % (c, self.shape[0]))
         p = zero_like(self.below)
+        if self.shape is not None and isinstance(p, Fiber):
+            p.shape = self.shape[1:]
         self.coords.insert(i, c)
         self.payloads.insert(i, p)
         return p
@@ -336,6 +344,8 @@ class Tensor:
         self.shape = shape
         if root is None:
             root = zero_like(len(self.rank_ids))
+            if shape is not None and isinstance(root, Fiber):
+                root.shape = tuple(shape)
         self.root = root
 
     @staticmethod
